@@ -229,6 +229,22 @@ def run_once(cfg, den, exact, max_events):
     if Q is not None:
         out['nev'], out['ties'] = Q.nev, Q.ties
         out['pseudo'], out['first_pseudo'] = Q.pseudo, Q.first_pseudo
+        if exact and out['exc'] is None:
+            # the selection of the event after the last executed one (at or beyond the horizon) also breaks ties with a
+            # uniform draw: look for a pseudo-tie among the pending dates too
+            try:
+                dates = [n.next_event_date for n in Q.active_nodes]
+                m = min(dates)
+                md = Decimal(str(m))
+                for c in dates:
+                    if isinstance(c, float) != isinstance(m, float) and not (isinstance(c, float) and math.isinf(c)) \
+                            and Decimal(str(c)) == md and c != m:
+                        out['pseudo'] += 1
+                        if out['first_pseudo'] is None:
+                            out['first_pseudo'] = md
+                        break
+            except Exception:
+                pass
         for nd in Q.nodes[1:]:
             for ind in nd.all_individuals:
                 for j, r in enumerate(ind.data_records):
